@@ -184,7 +184,7 @@ pub fn run(a: &Args) -> i32 {
                 ctx.model.ask(&tagged("env-set", vec![atom(&env_id(pi, mi).to_string()), list(items), externs_for(&p.schema, &p.var)]));
             }
         }
-        let pg = PayloadGen { s: &p.schema, doc: &p.doc, deny_deprecated: p.base.deprecation == "deny", max_list: 3, depth_budget: 4 };
+        let pg = PayloadGen { s: &p.schema, doc: &p.doc, deny_deprecated: p.base.deprecation == "deny", max_list: 3, depth_budget: 4, absent_percent: 20 };
         for (oi, op) in p.doc.ops.iter().enumerate() {
             if oi >= p.ops.len() || oi >= p.var_ops.len() {
                 break;
